@@ -5,6 +5,7 @@ From MD Require Import Model.EngineR Model.Default Model.Flatten Proofs.DefaultW
 From MD Require Import Regex.LocalityProofs Proofs.RoundTrip.
 From MD Require Import Regex.LocalityProofs Proofs.RoundTrip Proofs.RoundTrip2.
 From MD Require Import Regex.LocalityProofs Proofs.RoundTrip Proofs.RoundTrip2 Proofs.RoundTrip3 Proofs.RoundTrip4 Proofs.RoundTrip5 Proofs.RoundTrip6.
+From MD Require Import Proofs.RoundTrip7.
 
 (* base64 (bare and the three call forms): a2b_base64 (b64_encode p) = p for every payload *)
 Theorem C02_layer_base64 : forall p : bytes, wf_bytes p -> a2b_base64 (b64_encode p) = Ok p.
@@ -194,6 +195,14 @@ Print Assumptions C02_layer_HEX_found.
 Theorem C02_layer_base64_found : forall (pre : list N) (p suf : bytes), wf_bytes p -> (16 <= Datatypes.length p)%nat -> b64_acceptable (b64_encode p) = true -> b64_stop suf = true -> (Datatypes.length (b64_encode p) + 64 <= Backtrack.default_fuel)%nat -> neutral Regexes.RE_base64_BASE64_RE pre = true -> let form := b64_encode p in let data := pre ++ form ++ suf in find_base64 data = Hang \/ (exists rest : list node, find_base64 data = Ok (Node [] p ENC_B64 (blen pre) (blen pre + blen form) [] :: rest) /\ Forall (fun nd : node => blen pre + blen form <= n_st nd) rest).
 Proof. exact find_base64_roundtrip. Qed.
 Print Assumptions C02_layer_base64_found.
+
+Theorem C02_layer_xmlhex_found : forall (pre : list N) (l : list (xml_sp * N)) (suf : bytes), wf_bytes (map snd l) -> (5 <= Datatypes.length l)%nat -> xml_stop suf = true -> (Datatypes.length (xml_form_sp l) + 64 <= Backtrack.default_fuel)%nat -> neutral Regexes.RE_xml_XML_ESCAPE_RE pre = true -> let form := xml_form_sp l in let data := pre ++ form ++ suf in EscDec.find_xml_hex data = Hang \/ (exists rest : list node, EscDec.find_xml_hex data = Ok (Node [] (map snd l) (s2b "unescape.xml") (blen pre) (blen pre + blen form) [] :: rest) /\ Forall (fun nd : node => blen pre + blen form <= n_st nd) rest).
+Proof. exact find_xml_hex_roundtrip_hexrefs. Qed.
+Print Assumptions C02_layer_xmlhex_found.
+
+Theorem C02_layer_ps_bytes_found : forall (xortool : bytes -> list bytes) (pre : list N) (els : list (ps_el * bytes)) (last : ps_el) (suf : bytes), ps_els_ok els -> el_ok last = true -> (500 <= Datatypes.length els)%nat -> ps_stop suf = true -> (2 * Datatypes.length (psb_text els last) + 100 <= Backtrack.default_fuel)%nat -> neutral Regexes.RE_powershell_POWERSHELL_BYTES_RE pre = true -> neutral Regexes.RE_xor_helper_XOR_RE pre = true -> neutral Regexes.RE_xor_helper_XOR_RE suf = true -> let form := psb_text els last in let data := pre ++ form ++ suf in find_powershell_bytes xortool data = Hang \/ (exists rest : list node, find_powershell_bytes xortool data = Ok (Node (s2b "powershell.bytes") (ps_values els last) [] (blen pre) (blen pre + blen form) [] :: rest) /\ Forall (fun nd : node => blen pre + blen form <= n_st nd) rest).
+Proof. exact find_powershell_bytes_roundtrip. Qed.
+Print Assumptions C02_layer_ps_bytes_found.
 
 Example C02_example :
   a2b_base64 (b64_encode (L"GET http://evil.example.com/payload.exe now")) = Ok (L"GET http://evil.example.com/payload.exe now")
